@@ -65,7 +65,12 @@ func Must(label string, f func()) {
 }
 
 // Quiesce waits until no thread can progress without time advancing.
-func Quiesce() { vsched.Quiesce() }
+func Quiesce() {
+	vsched.Quiesce()
+	if len(kept) > 0 {
+		CheckKept()
+	}
+}
 
 // Choose / ChooseFree are explorer decisions.
 func Choose(n int) int     { return vsched.Choose(n) }
@@ -225,6 +230,11 @@ type MsgReceiver interface {
 // application's) and releases it.  Nobody else - another context that got the same publication,
 // a copy being forwarded to other peers, a later message in a recycled buffer - may notice.
 func Recv(r MsgReceiver) ([]byte, error) {
+	if c, ok := r.(mangos.Context); ok {
+		if _, isSock := r.(mangos.Socket); !isSock {
+			return recvBytesKeep(c)
+		}
+	}
 	m, err := r.RecvMsg()
 	if err != nil {
 		return nil, err
@@ -256,4 +266,42 @@ func SendBytes(s BytesSender, b []byte) error {
 		buf[i] ^= 0x5a
 	}
 	return err
+}
+
+
+// Contexts are received from through the byte-slice API: the slice returned is the application's,
+// it is kept and must never change afterwards, whatever the library receives or allocates later
+// (checked at every quiescence).
+type keptSlice struct {
+	b    []byte
+	want string
+}
+
+var kept []keptSlice
+
+func init() { OnReset(func() { kept = nil }) }
+
+func recvBytesKeep(c mangos.Context) ([]byte, error) {
+	b, err := c.Recv()
+	if err != nil {
+		return nil, err
+	}
+	kept = append(kept, keptSlice{b, string(b)})
+	return append([]byte{}, b...), nil
+}
+
+// CheckKept verifies that no slice handed out by Context.Recv has changed since.
+func CheckKept() {
+	for i, k := range kept {
+		if string(k.b) != k.want {
+			Failf("context-recv-slice-changed", "the slice returned by Context.Recv for message %d (%d bytes, %q) has changed since (now %q): the library kept using its buffer", i, len(k.want), clipStr(k.want), clipStr(string(k.b)))
+		}
+	}
+}
+
+func clipStr(s string) string {
+	if len(s) > 24 {
+		return s[:24] + "..."
+	}
+	return s
 }
